@@ -14,6 +14,24 @@ UNITS = {'mg': 1, 'g': 1000, 'kg': 10 ** 6}
 UNIT_NAMES = {'mg': 'milligram', 'g': 'gram', 'kg': 'kilogram'}
 
 _SER = None
+_QSER = None
+
+
+def qser():
+    """a custom serializer for quantity-valued variables: the magnitude in mg, plus 1000"""
+    global _QSER
+    if _QSER is None:
+        from vivarium.core.registry import Serializer, serializer_registry
+
+        class QtyMg(Serializer):
+            python_type = type(NotImplemented)
+
+            def serialize(self, data):
+                return int(round(data.to('milligram').magnitude)) + 1000
+        s = QtyMg()
+        serializer_registry.register('verif_qty_mg', s)
+        _QSER = s
+    return _QSER
 
 
 def plus1000():
@@ -37,6 +55,11 @@ def gen_store(rng, depth):
     for k in rng.sample(KEYS, rng.randint(1, 4)):
         if depth > 1 and rng.random() < 0.4:
             out[k] = gen_store(rng, depth - 1)
+        elif rng.random() < 0.08:
+            # a quantity-valued variable (the default is a Quantity, no `_units`) with a CUSTOM serializer:
+            # [magnitude, unit of the default, emit, declare the default again afterwards]
+            vu = rng.choice(list(UNITS))
+            out[k] = {'$qser': [rng.choice([0, 1, 2, -3, 7, 12]), vu, rng.random() < 0.7, rng.random() < 0.3]}
         elif rng.random() < 0.2:
             # a variable declared with `_units` whose value is supplied in another unit of the same dimension:
             # [magnitude, unit of the value, declared unit, emit]; the quantity is a whole number of kg, so
@@ -52,7 +75,7 @@ def gen_store(rng, depth):
 def branch_paths(d, pre=()):
     out = [list(pre)]
     for k, v in d.items():
-        if '$leaf' in v or '$qty' in v:
+        if '$leaf' in v or '$qty' in v or '$qser' in v:
             out.append(list(pre + (k,)))
         else:
             out.extend(branch_paths(v, pre + (k,)))
@@ -64,7 +87,7 @@ def gen_cfg(rng, d):
     cfg = {'$emit': rng.choice([None, None, True, False]), 'c': {}}
     for k, v in d.items():
         if rng.random() < 0.5:
-            if '$leaf' in v or '$qty' in v:
+            if '$leaf' in v or '$qty' in v or '$qser' in v:
                 cfg['c'][k] = {'$emit': rng.choice([True, False]), 'c': {}}
             else:
                 cfg['c'][k] = gen_cfg(rng, v)
@@ -95,8 +118,54 @@ def py_store_config(d):
             mag, vu, du, emit = v['$qty']
             out[k] = {'_default': mag * getattr(units, vu), '_units': getattr(units, du), '_emit': emit,
                       '_updater': 'set'}
+        elif '$qser' in v:
+            from vivarium.library.units import units
+            mag, vu, emit, late = v['$qser']
+            qser()
+            out[k] = {'_default': mag * getattr(units, vu), '_serializer': 'verif_qty_mg', '_emit': emit,
+                      '_updater': 'set'}
         else:
             out[k] = py_store_config(v)
+    return out
+
+
+def late_defaults(d):
+    """the second declaration of the `late` quantity variables: the same default once more"""
+    out = {}
+    for k, v in d.items():
+        if '$qser' in v:
+            if v['$qser'][3]:
+                from vivarium.library.units import units
+                out[k] = {'_default': v['$qser'][0] * getattr(units, v['$qser'][1])}
+        elif '$leaf' not in v and '$qty' not in v:
+            sub = late_defaults(v)
+            if sub:
+                out[k] = sub
+    return out
+
+
+def build_store(c):
+    from vivarium.core.store import Store
+    store = Store(py_store_config(c['store']))
+    late = late_defaults(c['store'])
+    if late:
+        store._apply_config(late)
+    store.apply_defaults()         # as generate_state does: a quantity variable takes its declared default
+    if c['cfg'] is not None:
+        store._apply_config(py_cfg(c['cfg']))
+    for path, b in c['sets']:
+        store.set_emit_value(tuple(path) if path else None, b)
+    return store
+
+
+def declared_leaves(d, pre=()):
+    """path -> the leaf declaration of the case"""
+    out = {}
+    for k, v in d.items():
+        if '$leaf' in v or '$qty' in v or '$qser' in v:
+            out[pre + (k,)] = v
+        else:
+            out.update(declared_leaves(v, pre + (k,)))
     return out
 
 
@@ -134,35 +203,26 @@ def py_cfg(cfg, top=True):
 
 
 def run_impl(c):
-    from vivarium.core.store import Store
-    store = Store(py_store_config(c['store']))
-    store.apply_defaults()         # as generate_state does: a quantity variable takes its declared default
-    if c['cfg'] is not None:
-        store._apply_config(py_cfg(c['cfg']))
-    for path, b in c['sets']:
-        store.set_emit_value(tuple(path) if path else None, b)
-    return {'row': store.emit_data()}
+    return {'row': build_store(c).emit_data()}
 
 
 def oracle(c, ob, rng):
     """the row holds exactly the flagged, valued variables (serializer applied), read from the real store"""
-    from vivarium.core.store import Store
-    store = Store(py_store_config(c['store']))
-    store.apply_defaults()         # as generate_state does: a quantity variable takes its declared default
-    if c['cfg'] is not None:
-        store._apply_config(py_cfg(c['cfg']))
-    for path, b in c['sets']:
-        store.set_emit_value(tuple(path) if path else None, b)
+    store = build_store(c)
+    decl = declared_leaves(c["store"])
     want = {}
     for path, node in store.depth():
         if node.inner or not node.leaf:
             continue
         if node.emit and node.value is not None:
-            if node.units is not None:
+            v = decl.get(tuple(path), {})
+            if '$qser' in v:                  # what the DECLARED custom serializer gives
+                want[tuple(path)] = v['$qser'][0] * UNITS[v['$qser'][1]] + 1000
+            elif '$qty' in v:
                 q = node.value.to('milligram').magnitude
                 want[tuple(path)] = ('mg', int(round(q)))
             else:
-                want[tuple(path)] = node.value + 1000 if node.serializer else node.value
+                want[tuple(path)] = node.value + 1000 if v['$leaf'][2] else node.value
 
     def flat(d, pre=()):
         out = {}
@@ -191,6 +251,9 @@ def r_store(d):
         if '$leaf' in v:
             val, emit, ser = v['$leaf']
             items.append(cpair(cN(KEYS.index(k)), '(ELeaf %s %s %s)' % (copt(cZ(val) if val is not None else None), cbool(emit), cbool(ser))))
+        elif '$qser' in v:
+            mag, vu, emit, late = v['$qser']
+            items.append(cpair(cN(KEYS.index(k)), '(ELeaf (Some %s) %s true)' % (cZ(mag * UNITS[vu]), cbool(emit))))
         elif '$qty' in v:
             mag, vu, du, emit = v['$qty']
             items.append(cpair(cN(KEYS.index(k)), '(EQty %s %s %s %s)' % (cZ(mag), cZ(UNITS[vu]), cZ(UNITS[du]), cbool(emit))))
